@@ -8,7 +8,8 @@
 // Handle.WriteWithNoSecrets refuses to write the same handle back (it sees
 // SYMMETRIC).  Coq witness: C13_no_secrets_import_trusts_the_label_refuted;
 // corpus line corpus/C13.txt "corpus-mislabelled-hmac-public".
-// Exits 1 when the import succeeds.
+// Fixed by /repo b141c20 (the import re-serialises the parsed keys and tests
+// their material): exits 0 on the repaired tree.  Exits 1 when the import succeeds.
 package main
 
 import (
